@@ -122,6 +122,9 @@ def load_known(prop):
             continue
         if m.group(1) == prop:
             known[m.group(2)] = m.group(3)
+        elif m.group(2) not in known:
+            # recorded under another property: the same instance seen through the anchor view
+            known[m.group(2)] = "(recorded under %s) %s" % (m.group(1), m.group(3))
     return known
 
 
@@ -221,7 +224,7 @@ def finish(prop, tier, ctx, t0, explanation, extra=None, replay_key=None):
             continue
         seen.add(k.key)
         print("KNOWN-FINDING: property=%s %s at %s: %s" % (prop, k.key, k.where, known[k.key]))
-    stale = [k for k in known if k not in {i.key for i in ctx.instances if not i.ok}]
+    stale = [k for k in known if not known[k].startswith("(recorded under") and k not in {i.key for i in ctx.instances if not i.ok}]
     for k in stale:
         print("note: known finding %s is no longer reported by its rule (repaired or instance gone)" % k)
     ev = write_evidence(prop, tier, ctx, violations, known_hits, time.time() - t0, explanation, extra)
